@@ -21,6 +21,13 @@ fn check_bracket_closed(chars: impl Iterator<Item = char>) -> bool {
     count <= 0
 }
 
+/// Verification hook (H1): exposes the private completeness test so that it can be swept
+/// exhaustively in-process. Compiled only with `--cfg ruschm_verif`.
+#[cfg(ruschm_verif)]
+pub fn verif_check_bracket_closed(text: &str) -> bool {
+    check_bracket_closed(text.chars())
+}
+
 pub fn run() {
     // currently rust is lack of higher kind type (HKT), so we need write f32 twice
     let it = Interpreter::<f32>::new_with_stdlib();
